@@ -449,7 +449,7 @@ pub fn run_one(case: &C14Case) -> Result<(C14Stats, Option<Viol>), RunErr> {
 
 pub fn run_shard(ctx: &mut Ctx) {
     let mut r = Rng::new(ctx.shard_seed());
-    let quick_n = 40u64;
+    let quick_n = 60u64;
     let mut h = 0u64;
     loop {
         if ctx.tier == Tier::Quick && h >= quick_n {
